@@ -103,7 +103,7 @@ def gen_history(seed, label, *, encrypted=None, max_users=3, nops=(3, 10), destr
             fs = gen_fileset(rng, paths, len(contents), prev)
             prev = fs
             op = {'op': 'snapshot', 'u': u, 'files': fs, 'at': at, 'mt': rng.randrange(10**9, 2 * 10**9),
-                  'note': rng.choice([None, None, 'note ' + ''.join(rng.choice('abcxyz 012') for _ in range(5))])}
+                  'note': rng.choice([None, None, 'note ' + ''.join(rng.choice('abcxyz 012') for _ in range(7))])}
             if crash_snapshots and rng.random() < 0.3:
                 op['crash_at'] = rng.randrange(0, 8)
             if overlap and rng.random() < 0.3:
@@ -236,6 +236,9 @@ class History:
     # ---- setup: init + keys
     def setup(self):
         W, case = self.W, self.case
+        if 'secrecy' in self.oracles:
+            W.state.payload_log = []
+            W.env.urandom_log = []
         seq = world.SchedOpts.sequential()
         users = case['users']
         for i, u in enumerate(users):
@@ -263,8 +266,11 @@ class History:
             self.stdouts.append(('add-key', r.stdout))
             self.keyfiles.append(self.clients[i].key)
         cfg = W.state.objects['config']
-        for c in self.clients:
-            self.refs.append(ref_format.RefRepo(cfg, c.key, c.password))
+        for i, c in enumerate(self.clients):
+            try:
+                self.refs.append(ref_format.RefRepo(cfg, c.key, c.password))
+            except (ref_format.FormatError, ValueError, KeyError, TypeError) as e:
+                raise Violation('format-key', f'config / key file of u{i} does not decode under the documented scheme: {e!r}')
         if case.get('decoys'):
             for name, b in case['decoys'].items():
                 W.state.objects[name] = base64.b64decode(b)
@@ -285,7 +291,11 @@ class History:
     # ---- running
     def run(self):
         try:
-            self.setup()
+            try:
+                self.setup()
+            except Violation as v:
+                self.viol.append({'cls': v.cls, 'msg': v.msg, 'sig': v.sig})
+                return self.result()
             if 'format' in self.oracles or 'store' in self.oracles:
                 self.check_store(after='setup')
             for i, op in enumerate(self.case['ops']):
@@ -296,6 +306,9 @@ class History:
             if not self.viol and 'restore_all' in self.oracles:
                 self.opi = len(self.case['ops'])
                 self.check_restore_all()
+            if not self.viol and 'secrecy' in self.oracles:
+                self.opi = len(self.case['ops'])
+                self.check_secrecy()
         finally:
             self.W.close()
         return self.result()
@@ -639,13 +652,20 @@ class History:
             fid, u = owner
             try:
                 dec = self.refs[u].decode_snapshot(objs[loc], loc)
-            except ref_format.FormatError:
+                for d in dec['chunks']:
+                    ref.add(self.refs[u].chunk_location(d))
+            except (ref_format.FormatError, TypeError, ValueError, KeyError, AttributeError):
                 continue
-            for d in dec['chunks']:
-                ref.add(self.refs[u].chunk_location(d))
         return ref
 
     def check_store(self, after):
+        try:
+            self._check_store(after)
+        except (TypeError, ValueError, KeyError, AttributeError, IndexError, ref_format.FormatError) as e:
+            # the independent reader met something that is not of the documented shape
+            self.flag('format-undecodable', f'after {after}: stored data is not of the documented shape: {e!r}', after=after)
+
+    def _check_store(self, after):
         """RefFormat reads the whole store: every name and object decodes under the documented
         scheme; every referenced chunk exists and hashes to its digest; listed == model."""
         objs = self.W.state.objects
@@ -841,6 +861,118 @@ class History:
             return
         if len(set(ups)) != len(ups) and self.clients[u].concurrent == 1:
             self.flag('dedup-reupload', f'snapshot by u{u} at concurrency 1 uploaded the same chunk twice', twice=True)
+
+    # ---- C05: nothing readable at rest
+    def check_secrecy(self):
+        W = self.W
+        hay = []
+        for name, data in W.state.payload_log:
+            if name == 'config':
+                continue          # algorithm settings are allowed to be readable (members checked by RefRepo)
+            hay.append(('object ' + name, data))
+            hay.append(('name of ' + name, name.encode()))
+        for i, k in enumerate(self.keyfiles):
+            hay.append((f'key file {i}', k))
+        for what, out in self.stdouts:
+            hay.append((f'stdout of {what}', out.encode('utf-8', 'surrogateescape')))
+        needles = []
+
+        def add(label, raw, text=False):
+            if len(raw) < 10:
+                return
+            needles.append((label, raw))
+            if not text:
+                needles.append((label + ' (hex)', raw.hex().encode()))
+            for off in range(3):
+                b = base64.standard_b64encode(b'\0' * off + raw)
+                # drop the characters influenced by the padding / the preceding bytes
+                b = b[4 * ((off + 2) // 3):len(b) - 4]
+                if len(b) >= 12:
+                    needles.append((label + f' (base64/{off})', b))
+        add('path component', b'replicat-verif', text=True)
+        for u in self.case['users']:
+            add('password', u['password'].encode(), text=True)
+        for s_ in self.snaps:
+            if s_.note:
+                add('note', s_.note.encode(), text=True)
+            for p, (data, mt) in s_.files.items():
+                add('mtime', str(mt).encode(), text=True)
+                if len(set(data)) >= 8:
+                    add('file content', data[:12])
+                    add('file content', data[-12:])
+                    if len(data) > 40:
+                        add('file content', data[len(data) // 2:len(data) // 2 + 12])
+                add('file digest', self.refs[s_.owner].hash(data))
+            dec = getattr(s_, 'decoded', None)
+            if dec is not None:
+                for d in dec['chunks']:
+                    add('chunk digest', d)
+        for i, ref in enumerate(self.refs):
+            add(f'user key of u{i}', ref.userkey)
+            for k in ('shared_key', 'mac_params', 'chunker_params', 'shared_kdf_params'):
+                add(f'private.{k} of u{i}', ref.private[k])
+        seen = set()
+        needles = [n for n in needles if not (n[1] in seen or seen.add(n[1]))]
+        self.probes['needles'] = self.probes.get('needles', 0) + len(needles)
+        self.probes['haystacks'] = self.probes.get('haystacks', 0) + len(hay)
+        for hlabel, h in hay:
+            for nlabel, n in needles:
+                if n in h:
+                    kind = nlabel.split(' (')[0].split(' of ')[0]
+                    self.flag('plaintext-at-rest', f'{nlabel} occurs in {hlabel[:120]}', what=kind,
+                              where=hlabel.split(' ')[0])
+                    return
+        # structure of everything written: chunk = nonce||AEAD under KDF(shared, digest); snapshot = two byte strings
+        aead = self.refs[0].aead
+        fresh = set(W.env.urandom_log)
+        by_key = {}
+        digests_by_loc = {}
+        for s_ in self.snaps:
+            dec = getattr(s_, 'decoded', None)
+            if dec is None:
+                continue
+            for d in dec['chunks']:
+                digests_by_loc[self.refs[s_.owner].chunk_location(d)] = (s_.owner, d)
+        for name, data in W.state.payload_log:
+            if name.startswith('data/'):
+                if name in digests_by_loc:
+                    u, d = digests_by_loc[name]
+                    try:
+                        self.refs[u].decode_chunk(data, d)
+                    except ref_format.FormatError as e:
+                        self.flag('structure', f'uploaded chunk {name} is not nonce||AEAD under the documented key: {e}', what='chunk')
+                        return
+                    by_key.setdefault(('chunk', name), []).append((aead.nonce_of(data), name))
+                elif not self.orphans_possible:
+                    self.flag('structure', f'uploaded chunk {name} is referenced by no snapshot', what='unreferenced')
+                    return
+            elif name.startswith('snapshots/'):
+                try:
+                    body = ref_format.loads(data)
+                except ValueError:
+                    self.flag('structure', f'snapshot object {name} is not JSON', what='snapshot')
+                    return
+                if not isinstance(body, dict) or set(body) != {'chunks', 'data'} or not all(isinstance(v, bytes) for v in body.values()):
+                    self.flag('structure', f'snapshot object {name}: members {sorted(body) if isinstance(body, dict) else type(body)} '
+                              f'are not exactly two byte strings', what='snapshot')
+                    return
+                owner = next((s_.owner for s_ in self.snaps if s_.loc == name), None)
+                if owner is not None:
+                    by_key.setdefault(('user', self.refs[owner].userkey), []).append((aead.nonce_of(body['data']), name + ' data'))
+                by_key.setdefault(('table', name), []).append((aead.nonce_of(body['chunks']), name + ' chunks'))
+        for i, k in enumerate(self.keyfiles):
+            key = ref_format.loads(k)
+            by_key.setdefault(('user', self.refs[i].userkey), []).append((aead.nonce_of(key['private']), f'key file {i}'))
+        for key, lst in by_key.items():
+            nonces = [n for n, _ in lst]
+            for n, where in lst:
+                if n not in fresh:
+                    self.flag('nonce-not-random', f'nonce of {where} was not drawn from the system RNG', what=key[0])
+                    return
+            if len(set(nonces)) != len(nonces):
+                self.flag('nonce-reuse', f'two ciphertexts under one key share a nonce: {[w for _, w in lst][:4]}', what=key[0])
+                return
+            self.probes['nonces'] = self.probes.get('nonces', 0) + len(nonces)
 
     # ---- restore / listing oracles (C06, C15)
     def expected_restore(self, u, snapshot_regex, file_regex):
